@@ -255,6 +255,18 @@ func c16Random(r *corr.Rand, tier string) []corr.Case {
 		l := []string{"case " + corr.Pick(rr, []string{"mem", "mem", "ro", "cow"}), "tree " + strings.Join(items, " ")}
 		nv := len(paths)
 		roots := []string{"/r", "/r", "/r", corr.Pick(rr, paths), corr.Pick(rr, paths), "/nope", "/r/nope/deeper", "/"}
+		// unclean spellings of a root: the root is reported as spelled, every descendant as Join(parent, name)
+		var dirs []string // stepping through a regular file ("f/..", "f/") is ill-formed on the OS side
+		for _, it := range items {
+			if strings.HasPrefix(it, "d:") {
+				dirs = append(dirs, string(corr.UnHex(it[2:])))
+			}
+		}
+		for k := 0; k < 3; k++ {
+			q := corr.Pick(rr, dirs)
+			roots = append(roots, corr.Pick(rr, []string{q + "/", q + "/.", "/r/." + strings.TrimPrefix(q, "/r"), "/r/" + strings.TrimPrefix(q, "/r"),
+				"/r/../r" + strings.TrimPrefix(q, "/r"), q + "//", "//r" + strings.TrimPrefix(q, "/r"), q + "/.."}))
+		}
 		for k := 0; k < 8; k++ {
 			root := corr.Pick(rr, roots)
 			plan := ""
@@ -281,7 +293,7 @@ func c16Exhaustive(tier string) []corr.Case {
 	items := []string{"d:" + h("/r"), "f:" + h("/r/a"), "d:" + h("/r/b"), "f:" + h("/r/b/x"), "d:" + h("/r/b/y"), "f:" + h("/r/b/y/z"), "f:" + h("/r/c"), "d:" + h("/r/d"), "f:" + h("/r/e")}
 	var cases []corr.Case
 	for _, st := range []string{"mem", "ro", "cow"} {
-		for _, root := range []string{"/r", "/r/b", "/r/a", "/r/d", "/nope", "/"} {
+		for _, root := range []string{"/r", "/r/b", "/r/a", "/r/d", "/nope", "/", "/r/./b", "/r//b", "/r/b/.", "/r/b/", "/r/d/../b", "/r/b/y/..", "/r/"} {
 			l := []string{"case " + st, "tree " + strings.Join(items, " "), "walk " + h(root)}
 			for i := 0; i < 10; i++ {
 				for _, a := range []string{"s", "e1"} {
